@@ -577,7 +577,7 @@ Section Machine.
      unless a load is in progress *)
   Definition lock_inv (s : st) : Prop :=
     (forall i, pcs s i = PLocked <-> wlock s = Some i) /\
-    (forall i, wlock s = Some i -> loaded s = true) /\
+    (forall i, wlock s = Some i -> is_empty (filter_of debug (ops i)) = true -> loaded s = true) /\
     (loaded s = true -> tpls s <> None \/ wlock s <> None).
 
   Lemma inv_init t : lock_inv (init t).
@@ -605,9 +605,11 @@ Section Machine.
   Proof. intros [I1 _] Hw H. apply I1 in H. congruence. Qed.
 
   Lemma inv_enter_load s i f :
-    lock_inv s -> wlock s = None -> lock_inv (enter_load s i f).
+    lock_inv s -> wlock s = None ->
+    (is_empty (filter_of debug (ops i)) = true -> is_empty f = true) ->
+    lock_inv (enter_load s i f).
   Proof.
-    intros I Hw. pose proof (free_not_locked s i I Hw) as Hi.
+    intros I Hw Hf. pose proof (free_not_locked s i I Hw) as Hi.
     unfold enter_load. destruct (loaded s && is_empty f).
     - apply inv_set_pc; [exact I|exact Hi|discriminate].
     - destruct I as [I1 [I2 I3]]. unfold lock_inv; simpl. split; [|split].
@@ -616,7 +618,7 @@ Section Machine.
         * rewrite upd_other by exact Hn. split.
           -- intros H. apply I1 in H. congruence.
           -- intros H. inversion H. congruence.
-      + reflexivity.
+      + intros j Hj He. inversion Hj; subst j. rewrite (Hf He). apply orb_true_r.
       + intros _. right. discriminate.
   Qed.
 
@@ -644,18 +646,20 @@ Section Machine.
   Proof.
     intros I. unfold step.
     destruct (pcs s i) eqn:Epc.
-    - destruct (ops i) as [n|f].
-      + destruct debug.
+    - destruct (ops i) as [n|f] eqn:Eo.
+      + destruct debug eqn:Ed.
         * unfold lock_free. destruct (wlock s) eqn:Ew; [discriminate|].
-          intros H; inversion H; subst. apply inv_enter_load; assumption.
+          intros H; inversion H; subst. apply inv_enter_load; try assumption.
+          rewrite Eo, Ed. simpl. auto.
         * intros H; inversion H; subst. apply inv_set_pc; [exact I|congruence|].
           destruct (loaded s); discriminate.
       + unfold lock_free. destruct (wlock s) eqn:Ew; [discriminate|].
-        intros H; inversion H; subst. apply inv_enter_load; assumption.
+        intros H; inversion H; subst. apply inv_enter_load; try assumption.
+        rewrite Eo. simpl. auto.
     - unfold lock_free. destruct (wlock s) eqn:Ew; [discriminate|].
       intros H; inversion H; subst. destruct (loaded s).
       + apply inv_set_pc; [exact I|congruence|discriminate].
-      + apply inv_enter_load; assumption.
+      + apply inv_enter_load; try assumption. reflexivity.
     - intros H; inversion H; subst. apply inv_finish_load; assumption.
     - unfold lock_free. destruct (wlock s) eqn:Ew; [discriminate|].
       intros H; inversion H; subst. apply inv_set_pc; [exact I|congruence|discriminate].
@@ -923,7 +927,7 @@ Section Machine.
 
   Lemma enter_load_fresh s j f :
     loaded s && is_empty f = false ->
-    enter_load s j f = mkst (fs s) true (tpls s) (Some j) (upd (pcs s) j PLocked) 0.
+    enter_load s j f = mkst (fs s) (loaded s || is_empty f) (tpls s) (Some j) (upd (pcs s) j PLocked) 0.
   Proof. intros H. unfold enter_load. rewrite H. reflexivity. Qed.
 
   Lemma apply_step s j s' : step debug ops s j = Some s' -> apply_ev debug ops s (EStep j) = s'.
@@ -944,7 +948,7 @@ Section Machine.
     assert (H1 : pcs s1 j = PLocked) by (unfold s1; simpl; apply upd_same).
     rewrite (apply_step s1 j _ (step_locked s1 j H1)).
     unfold finish_load, s1. simpl. rewrite Ho. simpl. rewrite Hc. simpl. rewrite upd_same.
-    unfold merge_old. destruct (tpls s); simpl; repeat split; reflexivity.
+    unfold merge_old. destruct (tpls s); simpl; rewrite ?orb_true_r; repeat split; reflexivity.
   Qed.
 End Machine.
 
@@ -1028,12 +1032,12 @@ Section Steps.
   Qed.
 
   Lemma step_loaded_mono s i s' :
-    lock_inv s -> (exists m, compile_dir debug (filter_of debug (ops i)) (fs s) = COk m) ->
+    lock_inv debug ops s -> (exists m, compile_dir debug (filter_of debug (ops i)) (fs s) = COk m) ->
     step debug ops s i = Some s' -> loaded s = true -> loaded s' = true.
   Proof.
     intros I [m Hc] Hs Hl. unfold step in Hs. destruct (pcs s i) eqn:Epc.
     - assert (E : forall f, loaded (enter_load s i f) = true).
-      { intros f. unfold enter_load. destruct (loaded s && is_empty f); [exact Hl|reflexivity]. }
+      { intros f. unfold enter_load. destruct (loaded s && is_empty f); [exact Hl|simpl; rewrite Hl; reflexivity]. }
       destruct (ops i); [destruct debug|].
       + destruct (lock_free s); [|discriminate]. inversion Hs; subst. apply E.
       + inversion Hs; subst. exact Hl.
@@ -1044,12 +1048,13 @@ Section Steps.
     - discriminate.
   Qed.
 
-  (* a call arrives at "render:after-load" only with the flag set *)
+  (* a call whose load is a load of all templates arrives at "render:after-load" only with the flag set *)
   Lemma step_afterload_loaded s i s' :
-    lock_inv s -> step debug ops s i = Some s' -> pcs s' i = PAfterLoad -> pcs s i <> PAfterLoad ->
+    lock_inv debug ops s -> step debug ops s i = Some s' -> pcs s' i = PAfterLoad -> pcs s i <> PAfterLoad ->
+    is_empty (filter_of debug (ops i)) = true ->
     loaded s' = true.
   Proof.
-    intros I Hs Hp Hn. unfold step in Hs. destruct (pcs s i) eqn:Epc.
+    intros I Hs Hp Hn Hf. unfold step in Hs. destruct (pcs s i) eqn:Epc.
     - assert (E : forall f, pcs (enter_load s i f) i <> PAfterLoad).
       { intros f. destruct (enter_load_pcs s i f) as [[H|H] _]; rewrite H; discriminate. }
       destruct (ops i); [destruct debug|].
@@ -1059,7 +1064,7 @@ Section Steps.
     - destruct (lock_free s); [|discriminate]. inversion Hs; subst. destruct (loaded s) eqn:El.
       + exact El.
       + exfalso. destruct (enter_load_pcs s i []) as [[H|H] _]; rewrite H in Hp; discriminate.
-    - inversion Hs; subst. destruct I as [I1 [I2 _]]. pose proof (I2 i (proj1 (I1 i) Epc)) as Hl.
+    - inversion Hs; subst. destruct I as [I1 [I2 _]]. pose proof (I2 i (proj1 (I1 i) Epc) Hf) as Hl.
       unfold finish_load in *. destruct (compile_dir debug (filter_of debug (ops i)) (fs s)); simpl in *.
       + exact Hl.
       + rewrite upd_same in Hp; discriminate.
@@ -1084,7 +1089,7 @@ Section Prod.
   Proof. destruct (ops i) as [n|f] eqn:E; simpl; [reflexivity|]. apply (Hfull i f E). Qed.
 
   Definition prod_inv (s : st) : Prop :=
-    lock_inv s /\ (tpls s <> None -> loaded s = true /\ wlock s = None).
+    lock_inv false ops s /\ (tpls s <> None -> loaded s = true /\ wlock s = None).
 
   Lemma prod_init t : prod_inv (init t).
   Proof. split; [apply inv_init|]. simpl. intros H; contradiction. Qed.
@@ -1107,7 +1112,8 @@ Section Prod.
       + simpl. intros _. split; [exact El|exact Ew].
       + apply E. reflexivity.
     - inversion Hs; subst. destruct I as [I1 [I2 I3]].
-      pose proof (proj1 (I1 i) Epc) as Hw. pose proof (I2 i Hw) as Hl.
+      pose proof (proj1 (I1 i) Epc) as Hw.
+      assert (Hl : loaded s = true) by (apply (I2 i Hw); rewrite filt_nil; reflexivity).
       unfold finish_load. destruct (compile_dir false (filter_of false (ops i)) (fs s)); simpl.
       + intros _. split; [exact Hl|reflexivity].
       + intros H. apply P in H. destruct H; congruence.
@@ -1246,7 +1252,7 @@ Section Prod.
       + intros i Hp. destruct (Nat.eq_dec i j) as [->|Hn].
         * destruct (pc_eq_afterload (pcs s j)) as [Hq|Hq].
           -- apply Hmono. eapply C3; eauto.
-          -- eapply step_afterload_loaded; eauto.
+          -- eapply step_afterload_loaded; eauto. rewrite filt_nil. reflexivity.
         * rewrite (Hsame i Hn) in Hp. apply Hmono. eapply C3; eauto.
       + intros i r Hp. destruct (Nat.eq_dec i j) as [->|Hn].
         * destruct (step_done_cases _ _ _ _ _ _ Es Hp)
@@ -1381,7 +1387,7 @@ Section Debug.
   Hypothesis Hne : forall i n, ops i = ORender n -> is_empty n = false.
 
   Definition dbg_inv (s : st) : Prop :=
-    lock_inv s /\ fs s = t0 /\
+    lock_inv true ops s /\ fs s = t0 /\
     (forall i, pcs s i <> PAfterCheck) /\
     (forall o x v, tpls s = Some o -> lookup x o = Some v -> lookup x mfull = Some v) /\
     (forall i n, ops i = ORender n -> pcs s i = PAfterLoad ->
@@ -1512,7 +1518,7 @@ Proof.
   intros Hw Hp Ho He Hd. unfold run. cbn [fold_left].
   rewrite (apply_step true ops s i _ (step_start_render_debug true ops s i n eq_refl Hp Ho Hw)).
   rewrite enter_load_fresh by (rewrite He; apply andb_false_r).
-  set (s1 := mkst (fs s) true (tpls s) (Some i) (upd (pcs s) i PLocked) 0).
+  set (s1 := mkst (fs s) (loaded s || is_empty n) (tpls s) (Some i) (upd (pcs s) i PLocked) 0).
   assert (H1 : pcs s1 i = PLocked) by (unfold s1; simpl; apply upd_same).
   rewrite (apply_step true ops s1 i _ (step_locked true ops s1 i H1)).
   unfold finish_load. replace (fs s1) with (fs s) by reflexivity. rewrite Ho. simpl filter_of.
@@ -1550,7 +1556,7 @@ Proof.
   rewrite (apply_step false ops s1 j _ (step_aftercheck false ops s1 j H1 Hw)).
   replace (loaded s1) with false by (symmetry; exact Hl).
   rewrite enter_load_fresh by (simpl; rewrite Hl; reflexivity).
-  set (s2 := mkst (fs s1) true (tpls s1) (Some j) (upd (pcs s1) j PLocked) 0).
+  set (s2 := mkst (fs s1) (loaded s1 || is_empty []) (tpls s1) (Some j) (upd (pcs s1) j PLocked) 0).
   assert (H2 : pcs s2 j = PLocked) by (unfold s2; simpl; apply upd_same).
   rewrite (apply_step false ops s2 j _ (step_locked false ops s2 j H2)).
   unfold finish_load. replace (fs s2) with t' by reflexivity. rewrite Ho. simpl filter_of. rewrite Hc.
@@ -1559,7 +1565,407 @@ Proof.
   rewrite (apply_step false ops s3 j _ (step_afterload_render false ops s3 j n H3 eq_refl Ho)).
   simpl. rewrite upd_same.
   assert (Hm : merge_old [] (tpls s) m = m) by (unfold merge_old; destruct (tpls s); reflexivity).
-  rewrite Hm. repeat split; reflexivity.
+  rewrite Hm. rewrite ?orb_true_r. repeat split; reflexivity.
+Qed.
+
+(* ================================================================ production mode, any explicit loads *)
+
+(* ---- fixed tree that compiles: first renders, loads of all templates and FILTERED loads in any
+        interleaving; every render answers from the full set *)
+Section ProdAny.
+  Variable ops : nat -> op.
+  Variable t0 : fstree.
+  Variable mfull : tmap.
+  Hypothesis Hc : compile_dir false [] t0 = COk mfull.
+
+  Definition full_holder (s : st) : Prop :=
+    exists i, wlock s = Some i /\ is_empty (filter_of false (ops i)) = true.
+
+  Definition full_set (s : st) : Prop :=
+    exists o, tpls s = Some o /\ forall x, lookup x o = lookup x mfull.
+
+  Definition fits_any (o : op) (r : result) : Prop :=
+    match o with
+    | ORender n => r = lookup_result n (Some mfull)
+    | OLoad f => r = RLoaded \/ (r = RAgain /\ is_empty f = true)
+    end.
+
+  Definition pa_inv (s : st) : Prop :=
+    lock_inv false ops s /\ fs s = t0 /\
+    (forall i, pcs s i = PAfterCheck -> exists n, ops i = ORender n) /\
+    (forall o x v, tpls s = Some o -> lookup x o = Some v -> lookup x mfull = Some v) /\
+    (loaded s = true -> full_holder s \/ full_set s) /\
+    (forall i, pcs s i = PAfterLoad -> loaded s = true) /\
+    (forall i r, pcs s i = PDone r -> fits_any (ops i) r).
+
+  Lemma pa_init : pa_inv (init t0).
+  Proof.
+    split; [apply inv_init|]. split; [reflexivity|]. simpl.
+    repeat split; intros; discriminate.
+  Qed.
+
+  Lemma pa_step s j s' : pa_inv s -> step false ops s j = Some s' -> pa_inv s'.
+  Proof.
+    intros [I [Hfs [A0 [A2 [A4 [A5 A6]]]]]] Hs.
+    pose proof (inv_step _ _ _ _ _ I Hs) as I'.
+    pose proof (step_fs _ _ _ _ _ Hs) as Hfs'.
+    destruct (step_rank _ _ _ _ _ Hs) as [Hrk Hsame].
+    split; [exact I'|]. split; [congruence|].
+    (* what the stepping call returns *)
+    assert (A6j : forall r, pcs s' j = PDone r -> fits_any (ops j) r).
+    { intros r Hp.
+      destruct (step_done_cases _ _ _ _ _ _ Hs Hp)
+        as [[Hpc [Hw [Ht Hr]]]|[[Hr [_ [_ [_ [_ [He [Hd|[f Hf]]]]]]]]|[Hpc [[Hr [[f Hf] _]]|[[Hr Hce]|[Hr Hce]]]]]].
+      - unfold fits_any. destruct (ops j) as [n|f] eqn:Eo; [|left; exact Hr].
+        destruct (A4 (A5 j Hpc)) as [[i [Hi _]]|[o [Hto Hlo]]]; [congruence|].
+        rewrite Hr, Hto. unfold lookup_result. rewrite Hlo. reflexivity.
+      - discriminate.
+      - unfold fits_any. rewrite Hf in *. simpl in He. right. split; assumption.
+      - unfold fits_any. rewrite Hf. left; exact Hr.
+      - rewrite Hfs in Hce. destruct (restrict_dir false (filter_of false (ops j)) t0 mfull Hc) as [mf [Hm _]]. congruence.
+      - rewrite Hfs in Hce. destruct (restrict_dir false (filter_of false (ops j)) t0 mfull Hc) as [mf [Hm _]]. congruence. }
+    assert (A6' : forall i r, pcs s' i = PDone r -> fits_any (ops i) r).
+    { intros i r Hp. destruct (Nat.eq_dec i j) as [->|Hn]; [apply A6j; exact Hp|].
+      rewrite (Hsame i Hn) in Hp. eapply A6; eauto. }
+    unfold step in Hs. destruct (pcs s j) eqn:Epc.
+    - (* PStart *)
+      destruct (ops j) as [n|f] eqn:Eo.
+      + (* render: the flag test *)
+        inversion Hs; subst s'. simpl in *. split.
+        { intros i Hp. destruct (Nat.eq_dec i j) as [->|Hn]; [eauto|].
+          rewrite upd_other in Hp by exact Hn. apply A0; exact Hp. }
+        split; [exact A2|]. split; [exact A4|]. split; [|exact A6'].
+        intros i Hp. destruct (Nat.eq_dec i j) as [->|Hn].
+        * rewrite upd_same in Hp. destruct (loaded s); [reflexivity|discriminate].
+        * rewrite upd_other in Hp by exact Hn. apply A5 with i; exact Hp.
+      + (* explicit load: the CAS (only for a load of all templates) *)
+        unfold lock_free in Hs. destruct (wlock s) eqn:Ew; [discriminate|].
+        inversion Hs; subst s'. clear Hs.
+        destruct (enter_load_pcs s j f) as [Hj Ho].
+        assert (Hnot : forall p, p = PAfterCheck \/ p = PAfterLoad -> pcs (enter_load s j f) j <> p).
+        { intros p [->| ->]; destruct Hj as [H|H]; rewrite H; discriminate. }
+        split.
+        { intros i Hp. destruct (Nat.eq_dec i j) as [->|Hn]; [exfalso; apply (Hnot PAfterCheck); [left; reflexivity|exact Hp]|].
+          rewrite (Ho i Hn) in Hp. apply A0; exact Hp. }
+        unfold enter_load in *. destruct (loaded s && is_empty f) eqn:Ela; simpl in *.
+        * split; [exact A2|]. split; [exact A4|]. split; [|exact A6'].
+          intros i Hp. destruct (Nat.eq_dec i j) as [->|Hn]; [rewrite upd_same in Hp; discriminate|].
+          rewrite upd_other in Hp by exact Hn. apply A5 with i; exact Hp.
+        * split; [exact A2|]. split.
+          { intros Hl. destruct (is_empty f) eqn:Ef.
+            - left. exists j. split; [reflexivity|]. rewrite Eo. exact Ef.
+            - rewrite orb_false_r in Hl. destruct (A4 Hl) as [[i [Hi _]]|Hset]; [congruence|].
+              right. exact Hset. }
+          split; [|exact A6'].
+          intros i Hp. destruct (Nat.eq_dec i j) as [->|Hn]; [rewrite upd_same in Hp; discriminate|].
+          rewrite upd_other in Hp by exact Hn. rewrite (A5 i Hp). reflexivity.
+    - (* PAfterCheck: the re-check under the lock *)
+      unfold lock_free in Hs. destruct (wlock s) eqn:Ew; [discriminate|].
+      inversion Hs; subst s'. clear Hs.
+      destruct (A0 j Epc) as [n Eo].
+      destruct (loaded s) eqn:El; simpl in *.
+      + split.
+        { intros i Hp. destruct (Nat.eq_dec i j) as [->|Hn]; [rewrite upd_same in Hp; discriminate|].
+          rewrite upd_other in Hp by exact Hn. apply A0; exact Hp. }
+        split; [exact A2|]. split; [intros _; apply A4; reflexivity|]. split; [intros; exact El|exact A6'].
+      + unfold enter_load in *. rewrite El in *. simpl in *. split.
+        { intros i Hp. destruct (Nat.eq_dec i j) as [->|Hn]; [rewrite upd_same in Hp; discriminate|].
+          rewrite upd_other in Hp by exact Hn. apply A0; exact Hp. }
+        split; [exact A2|]. split.
+        { intros _. left. exists j. split; [reflexivity|]. rewrite Eo. reflexivity. }
+        split; [intros; reflexivity|exact A6'].
+    - (* PLocked: the compile and the replacement of the set *)
+      inversion Hs; subst s'. clear Hs.
+      destruct (restrict_dir false (filter_of false (ops j)) t0 mfull Hc) as [mf [Hm HR]].
+      assert (Ht : tpls (finish_load false ops s j) =
+                   Some (merge_old (filter_of false (ops j)) (tpls s) mf)).
+      { unfold finish_load. rewrite Hfs, Hm. reflexivity. }
+      assert (Hl : loaded (finish_load false ops s j) = loaded s).
+      { unfold finish_load. rewrite Hfs, Hm. reflexivity. }
+      assert (Hpj : pcs (finish_load false ops s j) j =
+                    match ops j with ORender _ => PAfterLoad | OLoad _ => PDone RLoaded end).
+      { unfold finish_load. rewrite Hfs, Hm. simpl. apply upd_same. }
+      destruct I as [I1 [I2 _]]. pose proof (proj1 (I1 j) Epc) as Hwj.
+      split.
+      { intros i Hp. destruct (Nat.eq_dec i j) as [->|Hn].
+        - rewrite Hpj in Hp. destruct (ops j); discriminate.
+        - rewrite (Hsame i Hn) in Hp. apply A0; exact Hp. }
+      split.
+      { intros o x v Ho Hlk. rewrite Ht in Ho. inversion Ho; subst o.
+        rewrite (merge_restr _ _ _ mfull x HR) in Hlk.
+        destruct (prefixb (filter_of false (ops j)) x); [exact Hlk|].
+        destruct (tpls s) as [o|] eqn:Eo; [|discriminate]. eapply A2; eauto. }
+      split.
+      { rewrite Hl. intros Hls. right. unfold full_set. rewrite Ht. eexists. split; [reflexivity|].
+        intros x. rewrite (merge_restr _ _ _ mfull x HR).
+        destruct (A4 Hls) as [[i [Hi He]]|[o [Hto Hlo]]].
+        - assert (i = j) by congruence. subst i.
+          destruct (filter_of false (ops j)); [reflexivity|discriminate].
+        - rewrite Hto. destruct (prefixb (filter_of false (ops j)) x); [reflexivity|apply Hlo]. }
+      split; [|exact A6'].
+      intros i Hp. rewrite Hl. destruct (Nat.eq_dec i j) as [->|Hn].
+      + apply (I2 j Hwj). rewrite Hpj in Hp. destruct (ops j); [reflexivity|discriminate].
+      + rewrite (Hsame i Hn) in Hp. apply A5 with i; exact Hp.
+    - (* PAfterLoad: the lookup *)
+      destruct (lock_free s); [|discriminate]. inversion Hs; subst s'. simpl in *.
+      split.
+      { intros i Hp. destruct (Nat.eq_dec i j) as [->|Hn]; [rewrite upd_same in Hp; discriminate|].
+        rewrite upd_other in Hp by exact Hn. apply A0; exact Hp. }
+      split; [exact A2|]. split; [exact A4|]. split; [|exact A6'].
+      intros i Hp. destruct (Nat.eq_dec i j) as [->|Hn]; [rewrite upd_same in Hp; discriminate|].
+      rewrite upd_other in Hp by exact Hn. apply A5 with i; exact Hp.
+    - discriminate.
+  Qed.
+
+  Lemma pa_run evs : forall s, no_edits evs -> pa_inv s -> pa_inv (run false ops s evs).
+  Proof.
+    induction evs as [|e evs IH]; intros s Hn D; simpl; [exact D|].
+    inversion Hn as [|? ? He Hr]; subst. apply IH; [exact Hr|].
+    destruct e as [i|t|i]; simpl in *; [|contradiction|].
+    - destruct (step false ops s i) eqn:E; [eapply pa_step; eauto|exact D].
+    - destruct (compile_ev_cases false ops s i) as [[_ [E|[_ [_ E]]]]|[_ E]].
+      + rewrite E. exact D.
+      + rewrite E. exact D.
+      + eapply pa_step; eauto.
+  Qed.
+End ProdAny.
+
+(* cold start on a fixed tree that compiles, ANY explicit loads (filtered ones included), every
+   interleaving: every render answers as the specification says; an explicit load succeeds, or, if it
+   is a load of all templates, is told "again" *)
+Lemma cold_start_fixed_any ops t0 evs :
+  dom_fs t0 = true -> good_under false [] t0 = true -> no_edits evs ->
+  forall i r, pcs (reach false ops t0 evs) i = PDone r ->
+    match ops i with
+    | ORender n => r = spec_render false t0 n
+    | OLoad f => r = RLoaded \/ (r = RAgain /\ is_empty f = true)
+    end.
+Proof.
+  intros Hd Hg Hn i r Hp.
+  apply compile_dir_ok_iff in Hg. destruct Hg as [mfull Hc].
+  pose proof (pa_run ops t0 mfull Hc evs (init t0) Hn (pa_init ops t0 mfull)) as [_ [_ [_ [_ [_ [_ A6]]]]]].
+  specialize (A6 i r Hp). unfold fits_any in A6.
+  destruct (ops i) as [n|f]; [|exact A6]. rewrite A6. apply names_render; assumption.
+Qed.
+
+(* ---- the flag is set only by a call that loads all templates *)
+Section FlagOwner.
+  Variable ops : nat -> op.
+
+  Definition loads_all (o : op) : Prop :=
+    match o with ORender _ => True | OLoad f => is_empty f = true end.
+
+  Definition flag_inv (s : st) : Prop :=
+    (forall i, pcs s i = PAfterCheck -> exists n, ops i = ORender n) /\
+    (loaded s = true -> exists i, pcs s i <> PStart /\ loads_all (ops i)).
+
+  Lemma flag_step s j s' : flag_inv s -> step false ops s j = Some s' -> flag_inv s'.
+  Proof.
+    intros [F0 F1] Hs. unfold flag_inv.
+    destruct (step_rank _ _ _ _ _ Hs) as [Hrk Hsame].
+    assert (Keep : forall i, pcs s i <> PStart -> pcs s' i <> PStart).
+    { intros i Hi. destruct (Nat.eq_dec i j) as [->|Hn].
+      - intros H. rewrite H in Hrk. simpl in Hrk. destruct (pcs s j); simpl in Hrk; lia.
+      - rewrite (Hsame i Hn). exact Hi. }
+    assert (Old : loaded s = true -> exists i, pcs s' i <> PStart /\ loads_all (ops i)).
+    { intros Hl. destruct (F1 Hl) as [i [Hi Ha]]. exists i. split; [apply Keep; exact Hi|exact Ha]. }
+    assert (Me : loads_all (ops j) -> exists i, pcs s' i <> PStart /\ loads_all (ops i)).
+    { intros Ha. exists j. split; [|exact Ha]. intros H. rewrite H in Hrk. simpl in Hrk.
+      destruct (pcs s j); simpl in Hrk; lia. }
+    unfold step in Hs. destruct (pcs s j) eqn:Epc.
+    - destruct (ops j) as [n|f] eqn:Eo.
+      + inversion Hs; subst s'. simpl in *. split; [|exact Old].
+        intros i Hp. destruct (Nat.eq_dec i j) as [->|Hn]; [eauto|].
+        rewrite upd_other in Hp by exact Hn. apply F0; exact Hp.
+      + destruct (lock_free s); [|discriminate]. inversion Hs; subst s'.
+        destruct (enter_load_pcs s j f) as [Hj Ho]. split.
+        * intros i Hp. destruct (Nat.eq_dec i j) as [->|Hn].
+          -- destruct Hj as [H|H]; rewrite H in Hp; discriminate.
+          -- rewrite (Ho i Hn) in Hp. apply F0; exact Hp.
+        * unfold enter_load in *. destruct (loaded s && is_empty f) eqn:E; simpl in *; [exact Old|].
+          intros Hl. destruct (is_empty f) eqn:Ef.
+          -- apply Me. reflexivity.
+          -- rewrite orb_false_r in Hl. apply Old; exact Hl.
+    - destruct (lock_free s); [|discriminate]. inversion Hs; subst s'.
+      destruct (F0 j Epc) as [n Eo]. destruct (loaded s) eqn:El; simpl in *.
+      + split; [|intros _; apply Old; reflexivity].
+        intros i Hp. destruct (Nat.eq_dec i j) as [->|Hn]; [rewrite upd_same in Hp; discriminate|].
+        rewrite upd_other in Hp by exact Hn. apply F0; exact Hp.
+      + unfold enter_load in *. rewrite El in *. simpl in *. split.
+        * intros i Hp. destruct (Nat.eq_dec i j) as [->|Hn]; [rewrite upd_same in Hp; discriminate|].
+          rewrite upd_other in Hp by exact Hn. apply F0; exact Hp.
+        * intros _. apply Me. rewrite Eo. exact I.
+    - inversion Hs; subst s'. split.
+      + intros i Hp. destruct (Nat.eq_dec i j) as [->|Hn].
+        * destruct (finish_load_pcs false ops s j) as [H1 _]. rewrite Hp in H1. simpl in H1. lia.
+        * rewrite (Hsame i Hn) in Hp. apply F0; exact Hp.
+      + intros Hl. apply Old. unfold finish_load in Hl.
+        destruct (compile_dir false (filter_of false (ops j)) (fs s)); simpl in Hl; [exact Hl|discriminate|discriminate].
+    - destruct (lock_free s); [|discriminate]. inversion Hs; subst s'. simpl in *. split; [|exact Old].
+      intros i Hp. destruct (Nat.eq_dec i j) as [->|Hn]; [rewrite upd_same in Hp; discriminate|].
+      rewrite upd_other in Hp by exact Hn. apply F0; exact Hp.
+    - discriminate.
+  Qed.
+
+  Lemma flag_reach t0 evs : flag_inv (reach false ops t0 evs).
+  Proof.
+    unfold reach. apply (run_invariant false ops flag_inv).
+    - intros s e F. destruct e as [i|t|i]; simpl.
+      + destruct (step false ops s i) eqn:E; [eapply flag_step; eauto|exact F].
+      + exact F.
+      + destruct (compile_ev_cases false ops s i) as [[_ [E|[_ [_ E]]]]|[_ E]].
+        * rewrite E. exact F.
+        * rewrite E. exact F.
+        * eapply flag_step; eauto.
+    - split; simpl; intros; discriminate.
+  Qed.
+End FlagOwner.
+
+(* after ANY history in which only filtered explicit loads have been started (any number, any
+   interleaving, succeeding or failing, any file edits), the engine is not marked loaded ... *)
+Lemma only_filtered_not_loaded ops t0 evs :
+  let s := reach false ops t0 evs in
+  (forall i, pcs s i <> PStart -> exists f, ops i = OLoad f /\ is_empty f = false) ->
+  loaded s = false.
+Proof.
+  simpl. intros H. destruct (flag_reach ops t0 evs) as [_ F1].
+  destruct (loaded (reach false ops t0 evs)) eqn:El; [|reflexivity].
+  destruct (F1 eq_refl) as [i [Hi Ha]]. destruct (H i Hi) as [f [Ho He]].
+  rewrite Ho in Ha. simpl in Ha. congruence.
+Qed.
+
+(* ... so the first render, or the first load of all templates, loads everything from the tree as it
+   is then, and exactly that is renderable: the filtered loads before it change nothing about it *)
+Lemma filtered_first_harmless ops t0 evs j t' m :
+  let s := reach false ops t0 evs in
+  (forall i, pcs s i <> PStart -> exists f, ops i = OLoad f /\ is_empty f = false) ->
+  wlock s = None -> pcs s j = PStart -> compile_dir false [] t' = COk m ->
+  (forall n, ops j = ORender n ->
+     let s4 := run false ops (set_fs s t') [EStep j; EStep j; EStep j; EStep j] in
+     pcs s4 j = PDone (lookup_result n (Some m)) /\ tpls s4 = Some m /\ loaded s4 = true /\ wlock s4 = None) /\
+  (ops j = OLoad [] ->
+     let s2 := run false ops (set_fs s t') [EStep j; EStep j] in
+     pcs s2 j = PDone RLoaded /\ tpls s2 = Some m /\ loaded s2 = true /\ wlock s2 = None).
+Proof.
+  simpl. intros H Hw Hp Hc.
+  pose proof (only_filtered_not_loaded ops t0 evs H) as Hl. simpl in Hl.
+  split.
+  - intros n Ho. eapply render_recovers; eauto.
+  - intros Ho. eapply load_recovers; eauto.
+Qed.
+
+(* a load of all templates - explicit or by a first render, at any moment of any history, whatever filtered
+   or other loads put in place before - leaves exactly the compile of the tree it saw *)
+Lemma full_load_exact debug ops s i m :
+  pcs s i = PLocked -> is_empty (filter_of debug (ops i)) = true ->
+  compile_dir debug [] (fs s) = COk m ->
+  step debug ops s i = Some (finish_load debug ops s i) /\
+  tpls (finish_load debug ops s i) = Some m /\
+  (dom_fs (fs s) = true -> forall n, lookup_result n (tpls (finish_load debug ops s i)) = spec_render debug (fs s) n).
+Proof.
+  intros Hp He Hc. split; [apply step_locked; exact Hp|].
+  assert (Ht : tpls (finish_load debug ops s i) = Some m).
+  { unfold finish_load. destruct (filter_of debug (ops i)); [|discriminate].
+    rewrite Hc. simpl. unfold merge_old. destruct (tpls s); reflexivity. }
+  split; [exact Ht|]. intros Hd n. rewrite Ht. apply names_render; assumption.
+Qed.
+
+(* ---- both modes, any calls, any schedule, any edits: what a render prints was, at some moment of the
+        history, what the file of exactly that name compiles to - never another template's output *)
+Definition trees_of (evs : list ev) : list fstree :=
+  flat_map (fun e => match e with EFs t => [t] | _ => [] end) evs.
+
+Section WasContent.
+  Variable debug : bool.
+  Variable ops : nat -> op.
+
+  Definition seen_in (V : list fstree) (n : bytes) (out : tpl) : Prop :=
+    exists t, In t V /\ spec_find debug t n = Some out.
+
+  Definition wc_inv (V : list fstree) (s : st) : Prop :=
+    In (fs s) V /\
+    (forall o n out, tpls s = Some o -> lookup n o = Some out -> seen_in V n out) /\
+    (forall i n out, ops i = ORender n -> pcs s i = PDone (ROk out) -> seen_in V n out).
+
+  Lemma wc_mono V V' s : (forall t, In t V -> In t V') -> In (fs s) V' ->
+    (forall o n out, tpls s = Some o -> lookup n o = Some out -> seen_in V n out) ->
+    (forall i n out, ops i = ORender n -> pcs s i = PDone (ROk out) -> seen_in V n out) ->
+    wc_inv V' s.
+  Proof.
+    intros Hsub Hin W1 W2. split; [exact Hin|]. split.
+    - intros o n out Ht Hl. destruct (W1 o n out Ht Hl) as [t [Hi Hs]]. exists t. auto.
+    - intros i n out Ho Hp. destruct (W2 i n out Ho Hp) as [t [Hi Hs]]. exists t. auto.
+  Qed.
+
+  Lemma wc_step V s j s' :
+    dom_fs (fs s) = true -> wc_inv V s -> step debug ops s j = Some s' -> wc_inv V s'.
+  Proof.
+    intros Hd [W0 [W1 W2]] Hs.
+    pose proof (step_fs _ _ _ _ _ Hs) as Hfs.
+    destruct (step_rank _ _ _ _ _ Hs) as [_ Hsame].
+    assert (W1' : forall o n out, tpls s' = Some o -> lookup n o = Some out -> seen_in V n out).
+    { intros o n out Ht Hl.
+      destruct (step_tpls _ _ _ _ _ Hs) as [E|[_ [m [Hc Hm]]]].
+      - rewrite E in Ht. eapply W1; eauto.
+      - rewrite Hm in Ht. inversion Ht; subst o. rewrite merge_lookup in Hl.
+        pose proof (names_exact debug (filter_of debug (ops j)) (fs s) m Hd Hc n) as Hx.
+        destruct (prefixb (filter_of debug (ops j)) n) eqn:Ep.
+        + assert (Hlm : lookup n m = Some out).
+          { destruct (is_empty (filter_of debug (ops j))); [exact Hl|]. destruct (tpls s); exact Hl. }
+          rewrite Hx in Hlm. exists (fs s). split; assumption.
+        + destruct (tpls s) as [o|] eqn:Eo.
+          * destruct (lookup n o) as [v|] eqn:Elo.
+            -- inversion Hl; subst v. eapply W1; eauto.
+            -- rewrite Hx in Hl. discriminate.
+          * rewrite Hx in Hl. discriminate. }
+    split; [rewrite Hfs; exact W0|]. split; [exact W1'|].
+    intros i n out Ho Hp. destruct (Nat.eq_dec i j) as [->|Hn].
+    - destruct (step_done_cases _ _ _ _ _ _ Hs Hp) as [[Hpc [Hw [Ht Hr]]]|[[Hr _]|[_ [[Hr _]|[[Hr _]|[Hr _]]]]]];
+        try discriminate.
+      rewrite Ho in Hr. unfold lookup_result in Hr.
+      destruct (tpls s) as [o|] eqn:Eo; [|discriminate].
+      destruct (lookup n o) as [v|] eqn:El; [|discriminate]. inversion Hr; subst v.
+      eapply W1; eauto.
+    - rewrite (Hsame i Hn) in Hp. eapply W2; eauto.
+  Qed.
+
+  Lemma wc_run evs : forall V s,
+    (forall t, In t (V ++ trees_of evs) -> dom_fs t = true) ->
+    wc_inv V s -> wc_inv (V ++ trees_of evs) (run debug ops s evs).
+  Proof.
+    induction evs as [|e evs IH]; intros V s Hd W; simpl.
+    - rewrite app_nil_r. exact W.
+    - destruct e as [i|t|i]; simpl.
+      + apply IH; [exact Hd|].
+        destruct (step debug ops s i) eqn:E; [|exact W].
+        eapply wc_step; eauto. apply Hd. apply in_or_app. left. destruct W as [W0 _]. exact W0.
+      + replace (V ++ t :: trees_of evs) with ((V ++ [t]) ++ trees_of evs)
+          by (rewrite <- app_assoc; reflexivity).
+        apply IH; [intros x Hx; apply Hd; rewrite <- app_assoc in Hx; exact Hx|].
+        destruct W as [W0 [W1 W2]].
+        apply (wc_mono V); [intros x Hx; apply in_or_app; left; exact Hx| | |].
+        * simpl. apply in_or_app. right. left. reflexivity.
+        * exact W1.
+        * exact W2.
+      + apply IH; [exact Hd|].
+        destruct (compile_ev_cases debug ops s i) as [[[E0 [_ [E2 [_ E4]]]] _]|[_ E]].
+        * destruct W as [W0 [W1 W2]]. split; [rewrite E0; exact W0|]. split.
+          -- intros o n out Ht. rewrite E2 in Ht. eapply W1; eauto.
+          -- intros j n out Ho Hp. rewrite E4 in Hp. eapply W2; eauto.
+        * eapply wc_step; eauto. apply Hd. apply in_or_app. left. destruct W as [W0 _]. exact W0.
+  Qed.
+End WasContent.
+
+Lemma rendered_was_content debug ops t0 evs :
+  (forall t, In t (t0 :: trees_of evs) -> dom_fs t = true) ->
+  forall i n out, ops i = ORender n -> pcs (reach debug ops t0 evs) i = PDone (ROk out) ->
+    exists t, In t (t0 :: trees_of evs) /\ spec_find debug t n = Some out.
+Proof.
+  intros Hd i n out Ho Hp.
+  assert (W : wc_inv debug ops [t0] (init t0)).
+  { split; [left; reflexivity|]. split; simpl; intros; discriminate. }
+  destruct (wc_run debug ops evs [t0] (init t0) Hd W) as [_ [_ W2]].
+  exact (W2 i n out Ho Hp).
 Qed.
 
 (* ================================================================ combined statements for Props/C10.v *)
@@ -1589,20 +1995,23 @@ Lemma steps_bounded_reach debug ops t0 evs i N :
   eff_steps debug ops (init t0) evs i <= N + 4.
 Proof.
   intros H0 HT.
-  pose proof (steps_boundedN debug ops N evs (init t0) i (inv_init t0) H0 HT) as H.
+  pose proof (steps_boundedN debug ops N evs (init t0) i (inv_init debug ops t0) H0 HT) as H.
   unfold rankN at 2 in H. simpl in H. lia.
 Qed.
 
 (* ---- while a load is in progress (at "load:locked" or at any file of the compile) every other call
         waits; only the flag test of a production render can still be passed, and that render then
-        waits at the lookup *)
+        waits: at the lookup if the flag was set (a load of all templates is in progress or done), for
+        the lock if it was not (a filtered load on an engine that has not loaded yet) *)
 Lemma waits_for_load debug ops t0 evs j i :
   let s := reach debug ops t0 evs in
   pcs s j = PLocked -> i <> j ->
   step debug ops s i = None \/
   (debug = false /\ pcs s i = PStart /\ (exists n, ops i = ORender n) /\
-   step debug ops s i = Some (set_pc s i PAfterLoad) /\
-   step debug ops (set_pc s i PAfterLoad) i = None).
+   let p := if loaded s then PAfterLoad else PAfterCheck in
+   step debug ops s i = Some (set_pc s i p) /\
+   step debug ops (set_pc s i p) i = None /\
+   (is_empty (filter_of debug (ops j)) = true -> p = PAfterLoad)).
 Proof.
   simpl. intros Hj Hn. destruct (inv_reach debug ops t0 evs) as [I1 [I2 _]].
   set (s := reach debug ops t0 evs) in *.
@@ -1611,9 +2020,11 @@ Proof.
   destruct (pcs s i) eqn:Epc; try (left; reflexivity).
   - destruct (ops i) as [n|f] eqn:Eo; [|left; reflexivity].
     destruct debug; [left; reflexivity|]. right.
-    split; [reflexivity|]. split; [reflexivity|]. split; [eauto|]. split.
-    + unfold step. rewrite Epc, Eo, Hl. reflexivity.
-    + unfold step, lock_free. simpl. rewrite upd_same. fold s. rewrite Hw. reflexivity.
+    split; [reflexivity|]. split; [reflexivity|]. split; [eauto|]. split; [|split].
+    + unfold step. rewrite Epc, Eo. reflexivity.
+    + unfold step, lock_free. simpl. rewrite upd_same. fold s. rewrite Hw.
+      destruct (loaded s); reflexivity.
+    + intros He. rewrite (Hl He). reflexivity.
   - exfalso. apply I1 in Epc. congruence.
 Qed.
 
@@ -1905,17 +2316,36 @@ Proof.
   vm_compute. discriminate.
 Qed.
 
-(* production mode: an explicit FILTERED load as first load marks the engine loaded with a partial set *)
-Lemma prod_filtered_load_refuted :
+(* the machine before repair dd313c0 (every load does the CAS): an explicit FILTERED load as the first load
+   of a production engine marks it loaded with a partial set, and a template outside the filter stays
+   "not found" - on the same schedule the repaired machine answers as the specification says *)
+Lemma filtered_first_unrepaired_refuted :
   exists ops t0 evs i n r,
     dom_fs t0 = true /\ good_under false [] t0 = true /\ no_edits evs /\
-    ops i = ORender n /\ pcs (reach false ops t0 evs) i = PDone r /\ r <> spec_render false t0 n.
+    ops i = ORender n /\ pcs (reach_u false ops t0 evs) i = PDone r /\ r <> spec_render false t0 n /\
+    pcs (reach false ops t0 evs) i = PDone (spec_render false t0 n).
 Proof.
   exists (ops_of [OLoad (B "ab"); ORender (B "a")]), ex_tree,
-         [EStep 0; EStep 0; EStep 1; EStep 1], 1, (B "a"), RNotFound.
+         [EStep 0; EStep 0; EStep 1; EStep 1; EStep 1; EStep 1], 1, (B "a"), RNotFound.
   split; [vm_compute; reflexivity|]. split; [vm_compute; reflexivity|].
   split; [repeat constructor|]. split; [reflexivity|]. split; [vm_compute; reflexivity|].
-  vm_compute. discriminate.
+  split; [vm_compute; discriminate|vm_compute; reflexivity].
+Qed.
+
+(* production mode with an explicit filtered load AFTER the load of all templates: the set in place is
+   replaced under the filter (that is what the call is for), so "never replaced" needs full_loads *)
+Lemma prod_once_filtered_refuted :
+  exists ops t0 evs more m,
+    tpls (reach false ops t0 evs) = Some m /\
+    tpls (run false ops (reach false ops t0 evs) more) <> Some m /\
+    results (run false ops (reach false ops t0 evs) more) 3
+    = [PDone (ROk (B "OLD")); PDone RLoaded; PDone (ROk (B "NEW"))].
+Proof.
+  exists (ops_of [ORender (B "x"); OLoad (B "x"); ORender (B "x")]), (ex_bad_tree (KTpl (B "OLD"))),
+         [EStep 0; EStep 0; EStep 0; EStep 0],
+         [EFs (ex_bad_tree (KTpl (B "NEW"))); EStep 1; EStep 1; EStep 2; EStep 2],
+         [(B "x", B "OLD"); (B "a", B "A")].
+  split; [vm_compute; reflexivity|]. split; [vm_compute; discriminate|vm_compute; reflexivity].
 Qed.
 
 (* production mode, tree that does not compile: a render that passes the flag test while another
